@@ -22,6 +22,12 @@ def validators_sync(ctx, corrs, tr, ix):
                 continue
             lines.append("VPOS " + " ".join(order_toks(o) + [str(int(inp["closable"])), str(int(inp["today_closable"]))]))
             meta.append((corrs["position"], v, "1" if v["veto"] else "0"))
+            if corrs.get("closable") is not None and "pos" in inp and not acct_sync.nan_in(inp["pos"]):
+                t1 = (ix.cfgk.get("accounts_mod") or {}).get("stock_t1", True)
+                oc = sum(q for eff, q in inp["open_orders"] if eff in ("CLOSE", "CLOSE_TODAY", "EXERCISE"))
+                oct_ = sum(q for eff, q in inp["open_orders"] if eff == "CLOSE_TODAY")
+                lines.append("VCLOSABLE " + " ".join(ix.cfg_toks(o["book"]) + [str(int(t1)), str(int(inp["is_long"]))] + acct_sync.ser_pos(inp["pos"]) + [str(int(oc)), str(int(oct_))]))
+                meta.append((corrs["closable"], v, ("closable", inp["closable"], inp["today_closable"])))
         elif lab == "cash" and corrs.get("cash") is not None:
             if inp.get("cash") is None:
                 continue
@@ -50,6 +56,12 @@ def validators_sync(ctx, corrs, tr, ix):
         return
     reps = vlib.ask_driver(lines)
     for (corr, v, want), rep in zip(meta, reps):
+        if isinstance(want, tuple) and want[0] == "closable":
+            m = rep.split()
+            is_fut = v["order"]["book"] in ix.fut
+            ok = int(m[0]) == int(want[1]) and (not is_fut or int(m[1]) == int(want[2]))
+            corr.add(ok, {"order": v["order"], "position": v["inputs"]["pos"], "open_orders": v["inputs"]["open_orders"], "impl": [want[1], want[2]], "model": m, "when": str(v["when"][0])})
+            continue
         impl_veto = v["veto"]
         model_veto = (rep.strip() == "1") if want is not None else (rep.strip() != "PASS")
         corr.add(model_veto == impl_veto, {"validator": v["validator"], "order": v["order"], "inputs": {k: (str(x) if k == "trading_dt" else x) for k, x in v["inputs"].items()},
